@@ -602,6 +602,12 @@ def run(ctx):
                     # a test that sends the undiscovered state (None) down the same arm as the fallback state (0) is safe:
                     # format 0 / version 0 are valid whatever discovery decides later
                     handled = _tri_eval(node[0].stmt.test, x, None) is not None and _tri_eval(node[0].stmt.test, x, None) == _tri_eval(node[0].stmt.test, x, S)
+                if not handled and node:
+                    # ... the same for the test of a conditional expression (`1 if table else 0`)
+                    for y in node[0].walk():
+                        if isinstance(y, ast.IfExp) and any(z is x for z in ast.walk(y.test)):
+                            v_none, v_fb = _tri_eval(y.test, x, None), _tri_eval(y.test, x, S)
+                            handled = v_none is not None and v_none == v_fb
                 r.check(handled, "%s#read(%s)" % (f.qname, chain),
                         "`%s` is read where it may still be None (undiscovered): `None != 0` selects message format 1 before "
                         "discovery; discovery may then fall back to version 0" % chain, where(f, x),
